@@ -441,6 +441,23 @@ def e3(prog: Program, chk: Check) -> None:
             "" if rec else "the reconstruction check of the decomposition is gone")
 
 
+def e6(prog: Program, chk: Check) -> None:
+    chk.rule("E6", "the basis change into the eigenbasis and the one back keep their places on the "
+             "way into a process tensor: no call of a package callable (by signature; also "
+             "super().__init__) passes transform_in and transform_out - or any two plain names - "
+             "in each other's positions", floor=1)
+    from rules.c16 import swapped_arguments
+    hits, n_calls = swapped_arguments(prog, {"process_tensor", "pt_tempo", "backends.pt_tempo_backend",
+                                             "backends.tempo_backend", "tempo"})
+    for (u, c, pa, pb) in hits:
+        chk.saw(u)
+        chk.add("E6", u, f"{norm(c.func)}(..): `{pb}` passed as {pa}, `{pa}` passed as {pb}", False,
+                f"the arguments named {pa} and {pb} are handed over in each other's positions", c)
+    chk.add("E6", prog.module("process_tensor"), f"{n_calls} calls with a known signature examined, "
+            f"{len(hits)} with exchanged names", n_calls >= 30,
+            "" if n_calls >= 30 else "fewer resolvable calls than confirmed by hand")
+
+
 def run(prog: Program, chk: Check) -> None:
     chk.explanation = (
         "Decides two structural conditions of C05: E1 the diagonalising transform of the "
@@ -456,3 +473,4 @@ def run(prog: Program, chk: Check) -> None:
     chk.call(e3, prog, chk)
     chk.call(e4, prog, chk)
     chk.call(e5, prog, chk)
+    chk.call(e6, prog, chk)
